@@ -138,12 +138,16 @@ def run(tier, work, replay=None):
         c = cases[ci]
         sdl, qs = render(c)
         out = {"ci": ci}
+        # every third case with non-default module names (the generators take the names as parameters with defaults:
+        # a call site that forgets to pass one works until the name is configured)
+        ren = {"enums_module_name": "my_enums", "input_types_module_name": "my_inputs", "fragments_module_name": "my_frags"} if ci % 3 == 1 else {}
+        f_in, f_en = ren.get("input_types_module_name", "input_types") + ".py", ren.get("enums_module_name", "enums") + ".py"
         for variant, opts in (("pruned", {"include_all_inputs": c["allInputs"], "include_all_enums": c["allEnums"]}),
                               ("full", {"include_all_inputs": True, "include_all_enums": True})):
             job = work.dir / f"job_{ci}_{variant}"
-            write_job(job, schema=sdl, queries=qs, package="gclient", options=dict(opts, async_client=False))
+            write_job(job, schema=sdl, queries=qs, package="gclient", options=dict(opts, async_client=False, **ren))
             r = generate(job, probe=(variant == "pruned"))
-            out[variant] = {"r": r, "inputs": classes(job / "gclient" / "input_types.py"), "enums": classes(job / "gclient" / "enums.py")}
+            out[variant] = {"r": r, "inputs": classes(job / "gclient" / f_in), "enums": classes(job / "gclient" / f_en)}
             if variant == "pruned" and r["exc_class"] is None:
                 p = run_py(["-c", IMPORT_ALL % str(job)], cwd=job)
                 line = [ln for ln in p.stdout.splitlines() if ln.startswith("@@")]
@@ -157,7 +161,8 @@ def run(tier, work, replay=None):
     traces, owners = [], []
     for o in outs:
         c = cases[o["ci"]]
-        feats = {"nin": c["nin"], "nen": c["nen"], "allInputs": c["allInputs"], "allEnums": c["allEnums"], "nops": len(c["ops"])}
+        feats = {"nin": c["nin"], "nen": c["nen"], "allInputs": c["allInputs"], "allEnums": c["allEnums"], "nops": len(c["ops"]),
+                 "renamed_modules": o["ci"] % 3 == 1}
         detail = {"schema": o["sdl"], "queries": o["queries"]}
         pr, fu = o["pruned"], o["full"]
         if pr["r"]["exc_class"] or fu["r"]["exc_class"]:
